@@ -342,7 +342,7 @@ impl Prop for C06 {
             vec!["stream (SimStream write side: every write call's behaviour is scripted)"],
         )
     }
-    fn gen(&self, rng: &mut Rng, _tier: Tier, _index: u64) -> J {
+    fn gen_inner(&self, rng: &mut Rng, _tier: Tier, _index: u64) -> J {
         let nsteps = rng.range(2, 60);
         let mut steps = Vec::new();
         let mut enq = 0;
@@ -406,7 +406,7 @@ impl Prop for C06 {
         }
         WrCase { steps }.to_json()
     }
-    fn exec(&self, case: &J, st: &mut Stats) -> Result<RunOut, String> {
+    fn exec_inner(&self, case: &J, st: &mut Stats) -> Result<RunOut, String> {
         let case = WrCase::from_json(case)?;
         let mut input = Vec::new();
         if case.steps.iter().any(|s| matches!(s, WStep::Rd(_))) {
@@ -806,7 +806,7 @@ impl Prop for C05 {
     fn components(&self) -> (Vec<&'static str>, Vec<&'static str>) {
         (vec!["src/response.rs (Response builder API, write_all)", "src/common/mod.rs (Body, Version)"], vec!["sink (scripted Write)"])
     }
-    fn gen(&self, rng: &mut Rng, _tier: Tier, _index: u64) -> J {
+    fn gen_inner(&self, rng: &mut Rng, _tier: Tier, _index: u64) -> J {
         let n = 1 + rng.weighted(&[50, 25, 15, 10]);
         let big = rng.chance(1, 50);
         let recipes = (0..n).map(|_| gen_recipe(rng, 5, if big { 65536 } else { 2048 })).collect();
@@ -820,7 +820,7 @@ impl Prop for C05 {
         let fail_after = if rng.chance(1, 8) { Some(rng.below(400)) } else { None };
         RespCase { recipes, sink, fail_after }.to_json()
     }
-    fn exec(&self, case: &J, st: &mut Stats) -> Result<RunOut, String> {
+    fn exec_inner(&self, case: &J, st: &mut Stats) -> Result<RunOut, String> {
         let case = RespCase::from_json(case)?;
         let mut sig = Sig::new();
         let viol = |class: &str, step: usize, detail: String| {
